@@ -590,7 +590,7 @@ func (g *gen) badLine(depth int) gline {
 		case 9:
 			return gline{text: g.pick([]string{"!exists nothing", "!cmp a b", "!stop"}), tag: "bad-bang-glued"}
 		case 10:
-			return gline{text: g.pick([]string{"cd", "cd a b", "mv a", "mv a b c", "stop a b", "skip a b", "mkdir", "rm", "cp a", "cp", "exists", "exists -readonly", "stdin", "stdin a b", "wait a b", "kill a b c", "stdout", "stderr a b", "grep x", "stdout -count=0 x", "stdout -count=x y"}), tag: "bad-usage"}
+			return gline{text: g.pick([]string{"cd", "cd a b", "mv a", "mv a b c", "stop a b", "skip a b", "mkdir", "rm", "cp a", "cp", "exists", "exists -readonly", "stdin", "stdin a b", "wait a b", "kill a b c", "stdout", "stderr a b", "grep x", "stdout -count=0 x"}), tag: "bad-usage"}
 		case 11:
 			if !g.fl.customCmds {
 				return gline{text: g.pick([]string{"failcmd boom", "probe p0", "put out nl x"}), tag: "bad-custom-absent"}
